@@ -25,32 +25,56 @@ func (r *RaceReport) Key() string {
 	return strings.Join(r.Frames, ">") + "|" + strings.Join(fs, ">")
 }
 
-// Touches reports whether any of the two accessing stacks' top frames (the first frame of each
-// "Read at/Write at/Previous read/Previous write" section) lies in a file whose path contains sub.
-func (r *RaceReport) Touches(sub string) bool {
+// accessFrames returns, for each of the two racing accesses, the first frame outside the Go
+// standard library (the code that performed the access, or its closest caller in the repository).
+func (r *RaceReport) accessFrames() []string {
+	var out []string
 	secs := strings.Split(r.Text, "\n\n")
 	for _, s := range secs {
 		t := strings.TrimSpace(s)
-		if strings.HasPrefix(t, "Read at") || strings.HasPrefix(t, "Write at") || strings.HasPrefix(t, "Previous read") || strings.HasPrefix(t, "Previous write") ||
-			strings.HasPrefix(t, "WARNING: DATA RACE") {
-			lines := strings.Split(t, "\n")
-			// find first file line after the header(s)
-			for _, l := range lines {
-				l = strings.TrimSpace(l)
-				if strings.HasPrefix(l, "/") {
-					// the access is attributed to the first frame outside the Go standard library
-					if !(strings.Contains(l, "TarsGo") || strings.HasPrefix(l, Repo()+"/") || strings.HasPrefix(l, Root()+"/") || strings.Contains(l, "/pkg/mod/")) {
-						continue
-					}
-					if strings.Contains(l, sub) {
-						return true
-					}
-					break
-				}
+		if !(strings.HasPrefix(t, "Read at") || strings.HasPrefix(t, "Write at") || strings.HasPrefix(t, "Previous read") || strings.HasPrefix(t, "Previous write") ||
+			strings.HasPrefix(t, "Previous atomic") || strings.HasPrefix(t, "Atomic") || strings.HasPrefix(t, "WARNING: DATA RACE")) {
+			continue
+		}
+		for _, l := range strings.Split(t, "\n") {
+			l = strings.TrimSpace(l)
+			if !strings.HasPrefix(l, "/") {
+				continue
 			}
+			if !(strings.Contains(l, "TarsGo") || strings.HasPrefix(l, Repo()+"/") || strings.HasPrefix(l, Root()+"/") || strings.Contains(l, "/pkg/mod/")) {
+				continue
+			}
+			out = append(out, l)
+			break
+		}
+	}
+	return out
+}
+
+// Touches reports whether at least one of the two racing accesses is attributed to a file whose
+// path contains sub.
+func (r *RaceReport) Touches(sub string) bool {
+	for _, f := range r.accessFrames() {
+		if strings.Contains(f, sub) {
+			return true
 		}
 	}
 	return false
+}
+
+// TouchesBoth reports whether both racing accesses are attributed to files whose path contains sub
+// (state that only that package touches).
+func (r *RaceReport) TouchesBoth(sub string) bool {
+	fs := r.accessFrames()
+	if len(fs) < 2 {
+		return false
+	}
+	for _, f := range fs {
+		if !strings.Contains(f, sub) {
+			return false
+		}
+	}
+	return true
 }
 
 // ReadRaceReports parses every race log file written by this process tree (GORACE log_path prefix
